@@ -215,7 +215,7 @@ impl ParamGuard for CountVectorizerParams {
             Err(PreprocessingError::FlippedNGramBoundaries(
                 n_gram_min, n_gram_max,
             ))
-        } else if min_freq < 0. || max_freq < 0. {
+        } else if min_freq < 0. || max_freq < 0. || min_freq > 1. || max_freq > 1. {
             Err(PreprocessingError::InvalidDocumentFrequencies(
                 min_freq, max_freq,
             ))
